@@ -51,6 +51,26 @@ def setupParam (j : Json) : Except String (String × Var × Bool) := do
   | [f, v, c] => return (← str f, ← nat v, ← bool c)
   | _ => throw "bad setup param"
 
+def fslotOf (j : Json) : Except String FSlot := do
+  match (← arr j).toList with
+  | [_] => return .state
+  | [_, a, b, c, d] => return .data (← nat a) (← nat b) (← nat c) (← nat d)
+  | _ => throw "bad for slot"
+
+def islotOf (j : Json) : Except String ISlot := do
+  match (← arr j).toList with
+  | [_] => return .state
+  | [_, a, b, c] => return .data (← nat a) (← nat b) (← nat c)
+  | _ => throw "bad if slot"
+
+def jFSlot : FSlot → Json
+  | .state => Json.arr #[Json.str "s"]
+  | .data a b c d => Json.arr #[Json.str "d", jNat a, jNat b, jNat c, jNat d]
+
+def jISlot : ISlot → Json
+  | .state => Json.arr #[Json.str "s"]
+  | .data a b c => Json.arr #[Json.str "d", jNat a, jNat b, jNat c]
+
 mutual
 partial def stmtOf (j : Json) : Except String Stmt := do
   let a ← arr j
@@ -61,8 +81,8 @@ partial def stmtOf (j : Json) : Except String Stmt := do
     | "launch", [acc, ps] => return .launch (← str acc) (← listOf pairOf ps)
     | "await", [acc] => return .await (← str acc)
     | "op", [t, n] => return .op (← nat t) (← nat n)
-    | "if", [t, n, th, el] => return .ifS (← nat t) (← nat n) (← blockOf th) (← blockOf el)
-    | "for", [t, n, b] => return .forS (← nat t) (← nat n) (← blockOf b)
+    | "if", [t, n, th, el] => return .ifS (← nat t) (← listOf islotOf n) (← blockOf th) (← blockOf el)
+    | "for", [t, n, b] => return .forS (← nat t) (← listOf fslotOf n) (← blockOf b)
     | t, _ => throw s!"bad stmt {t}"
   | [] => throw "empty stmt"
 partial def blockOf (j : Json) : Except String Block := do
@@ -77,8 +97,8 @@ partial def jCStmt : CStmt → Json
   | .clear => Json.arr #[Json.str "clear"]
   | .nop => Json.arr #[Json.str "nop"]
   | .op t n => Json.arr #[Json.str "op", jNat t, jNat n]
-  | .ifS t n th el => Json.arr #[Json.str "if", jNat t, jNat n, jCBlock th, jCBlock el]
-  | .forS t n b => Json.arr #[Json.str "for", jNat t, jNat n, jCBlock b]
+  | .ifS t n th el => Json.arr #[Json.str "if", jNat t, jList jISlot n, jCBlock th, jCBlock el]
+  | .forS t n b => Json.arr #[Json.str "for", jNat t, jList jFSlot n, jCBlock b]
 partial def jCBlockL : CBlock → List Json
   | .nil => []
   | .cons s r => jCStmt s :: jCBlockL r
